@@ -6,6 +6,8 @@ import (
 	"encoding/json"
 	"flag"
 	"fmt"
+	"go/parser"
+	"go/token"
 	"os"
 	"os/exec"
 	"path/filepath"
@@ -161,11 +163,9 @@ func packageName(pkgRel string) (string, error) {
 	}
 	for _, e := range ents {
 		if strings.HasSuffix(e.Name(), ".go") && !strings.HasSuffix(e.Name(), "_test.go") {
-			b, _ := os.ReadFile(filepath.Join(repoRoot, pkgRel, e.Name()))
-			for _, l := range strings.Split(string(b), "\n") {
-				if strings.HasPrefix(l, "package ") {
-					return strings.Fields(l)[1], nil
-				}
+			f, err := parser.ParseFile(token.NewFileSet(), filepath.Join(repoRoot, pkgRel, e.Name()), nil, parser.PackageClauseOnly)
+			if err == nil && f.Name != nil {
+				return f.Name.Name, nil
 			}
 		}
 	}
@@ -372,7 +372,15 @@ func cmdCheck(args []string) int {
 				inconclusive = append(inconclusive, fmt.Sprintf("%s: witness %q not reachable (vacuous harness?)", h.Name, w))
 			}
 		}
-		// counterexamples: dedupe by kind/label/pos, replay, classify
+		// counterexamples: dedupe by kind/label/pos, replay each, then classify
+		type cexRec struct {
+			v       symex.Violation
+			rpath   string
+			outcome string
+			repro   bool
+			err     error
+		}
+		var cexs []*cexRec
 		seen := map[string]bool{}
 		for _, v := range res.Violations {
 			key := v.Kind + "|" + v.Label + "|" + v.Pos
@@ -380,48 +388,57 @@ func cmdCheck(args []string) int {
 				continue
 			}
 			seen[key] = true
-			if len(v.Model) == 0 || strings.HasPrefix(v.Model[0], "error") {
-				if len(v.Nondets) > 0 {
-					inconclusive = append(inconclusive, fmt.Sprintf("%s: counterexample without model for %s %q", h.Name, v.Kind, v.Label))
-					continue
-				}
+			if (len(v.Model) == 0 && len(v.Nondets) > 0) || (len(v.Model) > 0 && strings.HasPrefix(v.Model[0], "error")) {
+				inconclusive = append(inconclusive, fmt.Sprintf("%s: counterexample without model for %s %q", h.Name, v.Kind, v.Label))
+				continue
 			}
 			rf := &replayFile{Harness: h.Func, Pkg: h.Pkg, Func: h.Func, Property: id, Kind: v.Kind, Label: v.Label, Pos: v.Pos, Values: v.Model, Names: v.Nondets, Cuts: h.Cuts}
 			js, _ := json.MarshalIndent(rf, "", " ")
 			sum := sha256.Sum256(js)
 			os.MkdirAll(filepath.Join(verifRoot, "replays"), 0o755)
-			rpath := filepath.Join(verifRoot, "replays", fmt.Sprintf("%s-%s-%s.json", id, h.Name, hex.EncodeToString(sum[:4])))
-			os.WriteFile(rpath, js, 0o644)
-			kf := matchKnown(known, id, h.Name, v)
+			c := &cexRec{v: v, rpath: filepath.Join(verifRoot, "replays", fmt.Sprintf("%s-%s-%s.json", id, h.Name, hex.EncodeToString(sum[:4])))}
+			os.WriteFile(c.rpath, js, 0o644)
 			if *noReplay {
-				ev.Notes = append(ev.Notes, fmt.Sprintf("counterexample (not replayed): %s %q at %s values=%v", v.Kind, v.Label, v.Pos, v.Model))
-				if kf != nil {
+				c.repro, c.outcome = true, "not replayed"
+			} else {
+				c.outcome, _, c.err = runReplay(rf, c.rpath)
+				replays++
+				c.repro = c.err == nil && reproduced(v.Kind, v.Label, c.outcome)
+			}
+			cexs = append(cexs, c)
+		}
+		anyRepro := false
+		for _, c := range cexs {
+			if c.repro {
+				anyRepro = true
+			}
+		}
+		for _, c := range cexs {
+			v := c.v
+			switch {
+			case c.err != nil:
+				inconclusive = append(inconclusive, fmt.Sprintf("%s: replay failed: %v", h.Name, c.err))
+			case c.repro:
+				ev.Notes = append(ev.Notes, fmt.Sprintf("counterexample reproduced natively: %s %q at %s values=%v outcome=%s", v.Kind, v.Label, v.Pos, v.Model, c.outcome))
+				if kf := matchKnown(known, id, h.Name, v); kf != nil {
 					fmt.Printf("KNOWN-FINDING: property=%s %s\n", id, kf.What)
 				} else {
-					fmt.Printf("VIOLATION property=%s replay=%s\n", id, rpath)
+					fmt.Printf("VIOLATION property=%s replay=%s\n", id, c.rpath)
+					fmt.Printf("  harness=%s %s %q at %s values=%v\n", h.Name, v.Kind, v.Label, v.Pos, v.Model)
 					violations++
 				}
-				continue
-			}
-			outcome, txt, err := runReplay(rf, rpath)
-			replays++
-			if err != nil {
-				inconclusive = append(inconclusive, fmt.Sprintf("%s: replay failed: %v", h.Name, err))
-				continue
-			}
-			if !reproduced(v.Kind, v.Label, outcome) {
-				fmt.Printf("SPURIOUS-CEX harness=%s %s %q at %s: native outcome %q (values %v)\n", h.Name, v.Kind, v.Label, v.Pos, outcome, v.Model)
-				inconclusive = append(inconclusive, fmt.Sprintf("%s: counterexample for %s %q did not reproduce natively (outcome %s): encoding or stub is wrong", h.Name, v.Kind, v.Label, outcome))
-				_ = txt
-				continue
-			}
-			ev.Notes = append(ev.Notes, fmt.Sprintf("counterexample reproduced natively: %s %q at %s values=%v outcome=%s", v.Kind, v.Label, v.Pos, v.Model, outcome))
-			if kf != nil {
-				fmt.Printf("KNOWN-FINDING: property=%s %s\n", id, kf.What)
-			} else {
-				fmt.Printf("VIOLATION property=%s replay=%s\n", id, rpath)
-				fmt.Printf("  harness=%s %s %q at %s values=%v\n", h.Name, v.Kind, v.Label, v.Pos, v.Model)
-				violations++
+			case v.UsesUF && anyRepro:
+				// depends on the values of an uninterpreted function (hash/curve); the same harness already has a
+				// natively reproduced counterexample, so this one is recorded but decides nothing
+				ev.Notes = append(ev.Notes, fmt.Sprintf("UNCONFIRMED-CEX (depends on uninterpreted hash/curve values; native outcome %s): %s %q", c.outcome, v.Kind, v.Label))
+				fmt.Fprintf(os.Stderr, "UNCONFIRMED-CEX harness=%s %s %q (native outcome %s)\n", h.Name, v.Kind, v.Label, c.outcome)
+			default:
+				tag := "SPURIOUS-CEX"
+				if v.UsesUF {
+					tag = "UNCONFIRMED-CEX"
+				}
+				fmt.Printf("%s harness=%s %s %q at %s: native outcome %q (values %v)\n", tag, h.Name, v.Kind, v.Label, v.Pos, c.outcome, v.Model)
+				inconclusive = append(inconclusive, fmt.Sprintf("%s: counterexample for %s %q did not reproduce natively (outcome %s)", h.Name, v.Kind, v.Label, c.outcome))
 			}
 		}
 		evs = append(evs, ev)
